@@ -104,12 +104,8 @@ func (c *ColArr[T]) DecodeColumn(r *Reader, rows int) error {
 	if err := c.Offsets.DecodeColumn(r, rows); err != nil {
 		return errors.Wrap(err, "read offsets")
 	}
-	var size int
-	if l := len(c.Offsets); l > 0 {
-		// Pick last offset as total size of "elements" column.
-		size = int(c.Offsets[l-1])
-	}
-	if err := checkRows(size); err != nil {
+	size, err := checkOffsets(c.Offsets)
+	if err != nil {
 		return errors.Wrap(err, "array size")
 	}
 	if err := c.Data.DecodeColumn(r, size); err != nil {
@@ -158,4 +154,24 @@ func (c *ColArr[T]) Result(column string) ResultColumn {
 // Results return Results containing single column.
 func (c *ColArr[T]) Results(column string) Results {
 	return Results{c.Result(column)}
+}
+
+// checkOffsets validates cumulative offsets of Array or Map column received
+// from the wire and returns total size of the nested "elements" column.
+//
+// Offsets should never decrease, otherwise rows would refer to negative
+// ranges or ranges outside of nested column.
+func checkOffsets(offsets ColUInt64) (int, error) {
+	var prev uint64
+	for i, v := range offsets {
+		if v < prev {
+			return 0, errors.Errorf("offset [%d] %d is less than previous %d", i, v, prev)
+		}
+		prev = v
+	}
+	// Last offset is the total size of "elements" column.
+	if prev > maxRowsInBLock {
+		return 0, errors.Errorf("%d is suspiciously big, maximum is %d (preventing possible OOM)", prev, maxRowsInBLock)
+	}
+	return int(prev), nil
 }
